@@ -253,7 +253,9 @@ where
     I: IntoIterator<Item = T>,
   {
     let iter = iter.into_iter();
-    let size: usize = iter.size_hint().1.unwrap_or(0);
+    // Pre-allocate according to the lower bound only: the upper bound of an honest iterator may be arbitrarily
+    // larger than the number of items it yields (up to `usize::MAX`), which made the allocation panic.
+    let size: usize = iter.size_hint().0;
 
     let mut this: Self = Self::with_capacity(size);
 
